@@ -19,15 +19,15 @@ RULE = ("case = callback table + script over the real toplevel instance with the
         "during the wait, inside a callback, two signals, with a ready descriptor in the same ppoll).  Non-trivial = some "
         "signal or IO callback fired; distinct = distinct (arrival kinds, errno side effects present, slot reuse present, "
         "fired kinds/conditions, number of fires).")
-ASSUMPTIONS = ["PARTIAL by nature: the theorems hold over the loop model under the kernel contract stated next; signal delivery, ppoll atomicity and the self-pipe fallback are not verified",
+ASSUMPTIONS = ["PARTIAL by nature: the loop model is proved to refine the snapshot specification (C18_refines) under the kernel contract stated next; implementation = model is tested; signal delivery, ppoll atomicity and the self-pipe fallback are not verified",
                "kernel contract (hypothesis, not proved): a watched signal is blocked outside ppoll, is delivered by the next "
                "ppoll that finds no ready descriptor, and that ppoll then fails with EINTR; ppoll writes revents for every slot",
                "a signal watch is not cancelled while its signal is pending in the kernel (the last cancel restores the default action)",
-               "signal callbacks do not register further watches of a signal while its watchers are being invoked",
+               "a callback watching signal S does not register a further watch of S (hypothesis act_ok of C18_refines); registered descriptors are >= 0",
                "two loops are exercised: the default ppoll-based one (Linux) and a minimal poll loop without ->signal hook (self-pipe fallback)", "malloc does not fail"]
 TRUSTED = ["model coq/LoopPipeDefs.v of the self-pipe fallback (pipe as a byte counter) and the checker coq/LoopPipeSpec.v (obligation per raise and watcher)",
            "model coq/LoopSigDefs.v hand-written after src/evloop-default.c and src/tickit.c (with fixes/C18-*.patch applied); "
-           "specification coq/LoopSigSpec.v (snapshot semantics, no errno, no revents table)",
+           "specification coq/LoopSigSpec.v (snapshot semantics, no errno, no revents table; model proved to refine it in coq/LoopSigRefine.v)",
            "harness/loopharness.h: link-time replacement of ppoll that plays the kernel (real signals, real handler, scripted outcome)"]
 
 SIGS = [10, 12, 14]
